@@ -825,7 +825,14 @@ def alias_scenario(rng) -> List[Unit]:
     impl = rng.choice(["impl", "zimpl", "_impl"])
     cons = rng.choice(["aaa", "use", "zzz"])
     form = rng.choice(["plain", "plain", "from", "as"])
-    if form == "plain":
+    # `foreign`: the published class lives in a ROOT module (not below the publishing package) that imports the consumer
+    # back under `if TYPE_CHECKING:` — taken up first, that module makes the package bind `Thing` to a class that does
+    # not exist yet, and the consumer look it up at that moment
+    foreign = rng.random() < 0.5
+    implq = rng.choice(["aimpl", "zimpl"]) if foreign else "%s.%s" % (pk, impl)
+    if foreign:
+        init = ["import %s" % implq, "Thing = %s.Thing" % implq] if form != "as" else ["import %s as _m" % implq, "Thing = _m.Thing"]
+    elif form == "plain":
         init = ["import %s.%s" % (pk, impl), "Thing = %s.%s.Thing" % (pk, impl)]
     elif form == "from":
         init = ["from %s import %s" % (pk, impl), "Thing = %s.Thing" % impl]
@@ -841,12 +848,14 @@ def alias_scenario(rng) -> List[Unit]:
     conssrc = [cimp, "class Special(%s):" % bexpr, "    def hook(self):", "        pass", "    level = 2"]
     inside = rng.random() < 0.5
     consq = "%s.%s" % (pk, cons) if inside else rng.choice(["app", "zapp"])
-    if rng.random() < 0.4:
+    if foreign or rng.random() < 0.4:
         # a back-import of the consumer under `if TYPE_CHECKING:` in the implementation module: the consumer can then
         # be analysed while the package has not bound the published name yet (import cycle: hierarchy only)
         implsrc = ["from typing import TYPE_CHECKING", "if TYPE_CHECKING:", "    import %s" % consq] + implsrc
     units = [Unit(pk, True, "\n".join(init) + "\n", None),
              Unit("%s.%s" % (pk, impl), False, "\n".join(implsrc) + "\n", pk)]
+    if foreign:
+        units = rng.choice([[units[0], Unit(implq, False, "\n".join(implsrc) + "\n", None)], [Unit(implq, False, "\n".join(implsrc) + "\n", None), units[0]]])
     if inside:
         units.append(Unit(consq, False, "\n".join(conssrc) + "\n", pk))
     else:
@@ -883,6 +892,10 @@ def wrap_scenario(rng) -> List[Unit]:
                        "class X(Root):", "    def meth(self):", "        'meth doc'", "    attr = 1", "    sides = 3", "def deco(f):", "    return f"]
         else:
             implsrc = ["class X:", "    def meth(self):", "        'meth doc'", "    attr = 1", "def deco(f):", "    return f"]
+        if rng.random() < 0.5:
+            # an exception hierarchy across the re-export: the move re-registers X at the END of System.allobjects, so
+            # that the user's subclass can come before its base in every pass over the objects
+            implsrc = [ln.replace("class Root:", "class Root(Exception):").replace("class X:", "class X(ValueError):") for ln in implsrc]
         moved = ["X"]
         form = rng.choice(["from", "from", "module"])
         if form == "from":
@@ -1077,6 +1090,11 @@ def hunt_corpus() -> List[List[Unit]]:
         mk(("lib", "import lib.zimpl as _m\nThing = _m.Thing\n"), ("lib.zimpl", "def broken(:\n    pass\n"),
            ("zapp", "import lib\nclass Special(lib.Thing):\n    pass\n")),
         mk(("lib", "from ext import Thing\n"), ("app", "import lib\nclass Special(lib.Thing):\n    pass\n")),
+        # a class published by assignment from a ROOT module that imports the consumer back under TYPE_CHECKING: taken up
+        # first, that module makes the package bind `Thing` before the class exists, and the consumer looks it up then
+        mk(("pk/", "import aimpl\nThing = aimpl.Thing\n"),
+           ("aimpl", "from typing import TYPE_CHECKING\nif TYPE_CHECKING:\n    import app\nclass Root:\n    pass\nclass Thing(Root):\n    pass\n"),
+           ("app", "from pk import Thing\nclass Special(Thing):\n    pass\n")),
     ]
 
 
